@@ -104,7 +104,8 @@ def make_values(rnd, fx, k):
 
 def ambiguous(types, maxlen):
     """does RewriteLargeUnion's answer for this set of plain classes depend on which member comes first?"""
-    if len(types) <= maxlen or not all(isinstance(t, type) for t in types):
+    from monkeytype.compat import is_typed_dict
+    if len(types) <= maxlen or not all(isinstance(t, type) and not is_typed_dict(t) for t in types):
         return False
     cands = set()
     for first in types:
@@ -214,7 +215,7 @@ def run(ctx):
         import importlib
         fx = importlib.import_module("c14fx")
         rnd = random.Random(ctx.seed + 14)
-        n_scen = 12 if ctx.tier == "quick" else 120
+        n_scen = 30 if ctx.tier == "quick" else 240
         ct = common.ClassTable()
         jobs, scen = [], []
         for i in range(n_scen):
@@ -264,7 +265,8 @@ def run(ctx):
                     src_term = se.functions().get(q, {}).get("params", {}).get(n)
                     if src_term is None or src_term[1] is None:
                         continue
-                    positions.append(f"(PosIn {coq_str(q)} {coq_str(n)} {coq_list(common.reify_type(t, ct) for t in tl)})")
+                    dn = coq_bool(q == "f0" and n == "b")          # the only parameter of the fixture with a None default
+                    positions.append(f"(PosIn {coq_str(q)} {coq_str(n)} {dn} {coq_list(common.reify_type(t, ct) for t in tl)})")
                 refs[i] = (s, positions, amb, out)
                 dist["positions_modelled"] += len(positions)
                 dist["ambiguous_scenarios"] += amb
